@@ -485,6 +485,9 @@ class FuncAnalysis:
         """'nonref' | 'refs' | 'unknown'"""
         if depth > 8:
             return "unknown"
+        if isinstance(recv, ast.NamedExpr):
+            # (x := container[k]).pop(...): the container is the value
+            return self.container_class(recv.value, depth + 1)
         if isinstance(recv, ast.Attribute):
             if recv.attr in self.NONREF_CONTAINERS:
                 return "nonref"
@@ -522,6 +525,9 @@ class FuncAnalysis:
                        if isinstance(n, ast.Assign) and any(
                            isinstance(t, ast.Name) and t.id == recv.id
                            for t in n.targets)]
+            assigns += [n.value for n in walk_no_nested(self.func.node)
+                        if isinstance(n, ast.NamedExpr) and
+                        n.target.id == recv.id]
             assigns = [a for a in assigns if root_name(a) != recv.id]
             if not assigns:
                 return "unknown"
